@@ -518,6 +518,12 @@ thread_local! {
     static EXECUTOR: std::cell::RefCell<Option<Executor>> = const { std::cell::RefCell::new(None) };
 }
 
+/// Drop the calling thread's executor (and its scratch directory). Needed on the main
+/// thread, whose thread-locals are not destroyed by `process::exit`.
+pub fn drop_executor() {
+    EXECUTOR.with(|slot| *slot.borrow_mut() = None);
+}
+
 /// Run one case on the calling thread's executor. `Err` = infrastructure trouble.
 pub fn run_case(case: &Case) -> Result<Run, String> {
     EXECUTOR.with(|slot| {
